@@ -534,8 +534,25 @@ func (w *c19World) apply(r *Rec, op string) string {
 					}
 				}
 				r.Count("roundtrip.checked")
+				// ---- oracle: encode(decode(b)) == b byte for byte, for the canonical bytes b (= what the contract-side encoder emits) ----
+				bz2, err2 := v2.ABIPack()
+				if err2 != nil || !bytes.Equal(bz2, bz) {
+					w.find(r, "C19:reencode-differs:"+f[1], "ABIPack(ABIDecode(b)) differs from the canonical bytes b", hx(bz2), hx(bz))
+				}
+				// ---- oracle: the commitment recomputed from the DECODED packet is the hash of the received bytes ----
+				if p2, ok := v2.(*packettypes.Packet); ok {
+					cm, cerr := packettypes.CommitPacket(p2)
+					h := sha256.Sum256(bz)
+					r.Count("commit-of-decoded.checked")
+					if cerr != nil || !bytes.Equal(cm, h[:]) {
+						w.find(r, "C19:commitment-of-decoded-differs", "CommitPacket(ABIDecode(b)) is not sha256(b): the destination recomputes another commitment than the source stored", hx(cm), hx(h[:]))
+					}
+				}
 			} else {
 				r.Count("roundtrip.skipped-invalid-utf8")
+				if strings.Join(c19Show(v2), " ") != canon {
+					r.Count("roundtrip.lossy-invalid-utf8") // known, outside the property: encoding/json replaces invalid UTF-8 by U+FFFD
+				}
 			}
 		}
 		if p, ok := v.(*packettypes.Packet); ok {
@@ -1552,7 +1569,69 @@ func (g c19Gen) u64() uint64 {
 	return edge[g.n(len(edge))]
 }
 
+// string fields: classes that matter for a loss-free round trip (counted, with floors)
 func (g c19Gen) str() string {
+	cls, v := g.strClass()
+	g.r.Count("str." + cls)
+	return v
+}
+
+func (g c19Gen) strClass() (string, string) {
+	switch g.n(12) {
+	case 0: // EVM addresses in every spelling
+		addr := common.BytesToAddress(g.randBytes(20))
+		lower := strings.ToLower(addr.Hex()[2:])
+		switch g.n(6) {
+		case 0:
+			return "hex-address-eip55", addr.Hex()
+		case 1:
+			return "hex-address-upper", "0x" + strings.ToUpper(lower)
+		case 2:
+			return "hex-address-0X", "0X" + strings.ToUpper(lower)
+		case 3:
+			return "hex-address-noprefix-mixed", addr.Hex()[2:]
+		case 4:
+			return "hex-address-lower", "0x" + lower
+		}
+		return "hex-address-eip55", common.HexToAddress("0xeE3C65B5c7F4DD0ebeD8bF046725e273e3eeeD3c").Hex()
+	case 1: // bech32 in both cases, and other hex-looking strings
+		acc := sdk.AccAddress(g.randBytes(20)).String()
+		switch g.n(4) {
+		case 0:
+			return "bech32-lower", acc
+		case 1:
+			return "bech32-upper", strings.ToUpper(acc)
+		case 2:
+			return "hex-other", "0xABCDEF" + strings.Repeat("aB", g.n(30))
+		}
+		return "hex-other", strings.ToUpper(hx(g.randBytes(32)))
+	case 2: // look like numbers / JSON / escapes
+		return "json-like", []string{"123", "-1", "1e5", "0", "true", "false", "null", `{"a":1}`, `["x"]`, `\u0041`, `\`, `"`, `\"quoted\"`, "A", `\n`, "%41", "&amp;", "<script>", `\u2028`,
+			`{"src_chain":"x","sequence":9}`, "18446744073709551616", `\\`, `'`, "`", "\x00"}[g.n(25)]
+	case 3: // white space
+		return "whitespace", []string{" ", "\t", " lead", "trail ", "a  b", "\n", "\r\n", " \t ", "\u00a0x", "x\u2003"}[g.n(10)]
+	case 4:
+		if g.n(2) == 0 {
+			return "empty", ""
+		}
+		return "very-long", strings.Repeat([]string{"x", "Ab", "é", "0xAb"}[g.n(4)], 1000+g.n(2000))
+	}
+	v := g.strBase()
+	switch {
+	case v == "":
+		return "empty", v
+	case !utf8.ValidString(v):
+		return "invalid-utf8", v
+	}
+	for _, c := range v {
+		if c >= 0x80 {
+			return "unicode", v
+		}
+	}
+	return "ascii", v
+}
+
+func (g c19Gen) strBase() string {
 	fixed := []string{"", "a", "teleport", "<>&", "a<b>c&d\"e\\f", "  ", "\x00\x01\x1f\x7f", "é漢😀", "�", "tab\there\nnl\r",
 		"\xff", "\xc0\x80", "\xed\xa0\x80", "\xf4\x90\x80\x80", "\xe2\x80", "ok\xf0\x9f\x98", "\x80abc", "abc\xfe", "\xc2", "\xe0\x9f\xbf", "\xf0\x8f\xbf\xbf", "\xef\xbf\xbd\xef\xbf",
 		"0x1234567890abcdef1234567890abcdef12345678", "bsc-testnet", strings.Repeat("x", 31), strings.Repeat("y", 32), strings.Repeat("z", 33), strings.Repeat("w", 64), strings.Repeat("long", 80)}
@@ -1618,11 +1697,25 @@ func (g c19Gen) name(validOnly bool) string {
 func (g c19Gen) structFields(name string) []string {
 	v := c19New(name)
 	var out []string
-	for _, f := range c19Fields(v) {
+	names := c19FieldNames(v)
+	for i, f := range c19Fields(v) {
 		switch f.Kind() {
 		case reflect.Uint64:
 			out = append(out, strconv.FormatUint(g.u64(), 10))
 		case reflect.String:
+			// address-carrying fields get an address spelling half of the time
+			if strings.Contains("Sender CallbackAddress Receiver Token OriToken ContractAddress Relayer", names[i]) && g.n(2) == 0 {
+				for {
+					cls, sv := g.strClass()
+					if strings.HasPrefix(cls, "hex-address") || strings.HasPrefix(cls, "bech32") {
+						g.r.Count("str." + cls)
+						g.r.Count("str.address-field")
+						out = append(out, hxs(sv))
+						break
+					}
+				}
+				continue
+			}
 			out = append(out, hxs(g.str()))
 		case reflect.Slice:
 			out = append(out, hx(g.bytes()))
@@ -2220,7 +2313,7 @@ func TestC19(t *testing.T) {
 		w.hist = nil
 	}
 	// 2. strings, numbers, names
-	for i := 0; i < 300*scale; i++ {
+	for i := 0; i < 450*scale; i++ {
 		run([]string{"utf8 " + hxs(g.str())})
 		w.hist = nil
 	}
